@@ -36,10 +36,14 @@ class Binding:
         return "<%s %s>" % (self.kind, self.target if self.kind != "class" else self.target.qual)
 
 
+_SINGLETONS = (ast.expr_context, ast.operator, ast.cmpop, ast.boolop, ast.unaryop)   # shared between all parsed trees
+
+
 def set_parents(tree):
     for node in ast.walk(tree):
         for child in ast.iter_child_nodes(node):
-            child._parent = node
+            if not isinstance(child, _SINGLETONS):
+                child._parent = node
     tree._parent = None
 
 
@@ -147,7 +151,8 @@ class Module:
             self.tree = normalize.normalize(self.tree, relpath)
         set_parents(self.tree)
         for n in ast.walk(self.tree):
-            n._module = self
+            if not isinstance(n, _SINGLETONS):
+                n._module = self
         self.digest = hashlib.sha256(source.encode("utf8", "replace")).hexdigest()
         self._ns = None
         self._ns_building = False
